@@ -12,7 +12,7 @@ from vlib import common, coopsched, progmc
 LEVEL = "exploration"
 
 
-def run_real(prog, clock, end=progmc.END, driver="start"):
+def run_real(prog, clock, end=progmc.END, driver="start", raw=()):
     """execute prog on the real simulator; returns observation dict"""
     from pydsol.core.experiment import SingleReplication
     simc, T = progmc.time_types()[clock]
@@ -21,7 +21,7 @@ def run_real(prog, clock, end=progmc.END, driver="start"):
 
     def body(s):
         sim = simc("s")
-        m = M(sim, prog, T, base=base)
+        m = M(sim, prog, T, base=base, raw=raw)
         sim.initialize(m, SingleReplication("r", base, T(0), T(end)))
         if driver == "start":
             sim.start()
@@ -47,10 +47,10 @@ def run_real(prog, clock, end=progmc.END, driver="start"):
     return r.value
 
 
-def judge(prog, clock, end=progmc.END, driver="start"):
+def judge(prog, clock, end=progmc.END, driver="start", raw=()):
     """returns list of (kind, detail) disagreements"""
     try:
-        got = run_real(prog, clock, end, driver)
+        got = run_real(prog, clock, end, driver, raw)
     except common.HarnessError:
         raise
     except Exception as ex:  # noqa  (exception escaping into the driver)
@@ -74,6 +74,8 @@ def judge(prog, clock, end=progmc.END, driver="start"):
         bad.append(("final-state", (got["state"], got["rstate"])))
     if driver != "start":
         bad = [(k + ":" + driver, d) for k, d in bad]
+    if raw:
+        bad = [(k + ":user-event-class", d) for k, d in bad]
     for rec in got["ill"]:
         if not progmc.illegal_ok(rec):
             bad.append(("illegal-%s" % rec[0], rec))
@@ -118,6 +120,13 @@ def worker(task):
                         sample = {"clock": clock,
                                   "program": progmc.prog_to_json(prog),
                                   "trace": got["trace"]}
+                if k >= 2 and not var:
+                    # every second event is an instance of a user subclass of
+                    # SimEvent handed to schedule_event(): one event order
+                    n += 1
+                    b2, _ = judge(prog, clock, raw=set(range(1, k, 2)))
+                    bad = bad + [(kd, "odd events of a SimEvent subclass: %s"
+                                  % (d,)) for kd, d in b2]
                 if not var:
                     # the same horizon reached by the bounded commands
                     for drv in ("upto-beyond", "uptoi-end"):
@@ -236,7 +245,8 @@ def run(ctx):
         "cancel action (who x target x before/after)%s, on the float, int and "
         "Duration simulators; replication [0,%d] so chains cross the horizon; "
         "every cancel-free tree also under run_up_to(end+1) and "
-        "run_up_to_including(end). "
+        "run_up_to_including(end) and with its odd events as "
+        "instances of a user subclass of SimEvent. "
         "Plus wide programs: construct_model schedules M distinct-time events "
         "(all permutations for M<=6/7, the multiplicative family beyond, M up "
         "to 15/23) and the earliest event cancels each target j. "
@@ -260,4 +270,6 @@ def replay(data):
     bad, got = judge(prog, data["clock"], end)
     for drv in ("upto-beyond", "uptoi-end"):
         bad = bad + judge(prog, data["clock"], end, drv)[0]
+    bad = bad + judge(prog, data["clock"], end,
+                      raw=set(range(1, len(prog) - 1, 2)))[0]
     return bad or None
